@@ -157,9 +157,25 @@ Lemma arr_of_plain x : is_union x = false -> arr_of x = TyArr x.
 Proof. destruct x; try discriminate; reflexivity. Qed.
 Lemma opt_of_plain x : is_union x = false -> opt_of x = TyUnion [x; null_ty].
 Proof. destruct x; try discriminate; reflexivity. Qed.
-Lemma not_union m : forall u, opt_like u = false -> union_under_seq u = false -> is_union (ts_ty_of m u) = false.
+Lemma lookup_target0 m : map_ok m = true -> forall n x, lookup m n = Some x -> x = L "string" \/ x = L "number" \/ x = L "boolean".
 Proof.
-  induction u as [p|u IH|k v IHk IHv|u IH|l IH|u IH|u IH|n] using ts_ind2; intros Ho Hs; cbn [ts_ty_of]; try reflexivity.
+  induction m as [|[k v] r IH]; cbn [lookup map_ok forallb]; intros Hm n x; [discriminate|].
+  apply andb_true_iff in Hm. destruct Hm as [Hv Hr]. cbn [snd] in Hv. destruct (str_eqb k n).
+  - intros Hl. inversion Hl; subst. apply in_names_cases in Hv. destruct Hv as [y [Hin Hy]]. cbn in Hin. intuition (subst; auto).
+  - apply IH; assumption.
+Qed.
+(* with primitive targets the tree of a (possibly mapped) custom type is a plain reference *)
+Definition cname (m : mapping) (n : str) : str := match lookup m n with Some x => x | None => n end.
+Lemma custom_ty_prim m : map_ok m = true -> forall n, custom_ty m n = TyRef [cname m n] [].
+Proof.
+  intros Hm n. unfold custom_ty, cname. destruct (lookup m n) as [x|] eqn:E; [|reflexivity].
+  destruct (lookup_target0 m Hm n x E) as [->|[->| ->]]; reflexivity.
+Qed.
+Lemma not_union m : map_ok m = true -> forall u, opt_like u = false -> union_under_seq u = false -> is_union (ts_ty_of m u) = false.
+Proof.
+  intros Hm.
+  induction u as [p|u IH|k v IHk IHv|u IH|l IH|u IH|u IH|n] using ts_ind2; intros Ho Hs; cbn [ts_ty_of]; try reflexivity;
+    try (rewrite custom_ty_prim by exact Hm; reflexivity).
   - cbn [union_under_seq] in Hs. apply orb_false_iff in Hs. destruct Hs as [Ha Hb]. rewrite arr_of_plain by (apply IH; assumption). reflexivity.
   - cbn [union_under_seq] in Hs. apply orb_false_iff in Hs. destruct Hs as [Ha Hb]. rewrite arr_of_plain by (apply IH; assumption). reflexivity.
   - destruct l; reflexivity.
@@ -230,12 +246,12 @@ Section WithMap.
     induction t as [p|u IH|k v IHk IHv|u IH|l IH|u IH|u IH|n] using ts_ind2; intros Hd Hs.
     - reflexivity.
     - cbn [union_under_seq] in Hs. apply orb_false_iff in Hs. destruct Hs as [Ha Hb]. cbn [dom] in Hd.
-      cbn [ts_ty_of tsh]. rewrite arr_of_plain by (apply not_union; assumption). cbn [tshape]. rewrite IH by assumption. reflexivity.
+      cbn [ts_ty_of tsh]. rewrite arr_of_plain by (apply not_union; assumption || exact Hm). cbn [tshape]. rewrite IH by assumption. reflexivity.
     - cbn [union_under_seq] in Hs. apply orb_false_iff in Hs. destruct Hs as [Ha Hb]. cbn [dom] in Hd.
       apply andb_true_iff in Hd. destruct Hd as [Hk Hv]. destruct (key_ok_dom _ Hk) as [Hk1 Hk2].
       cbn [ts_ty_of tsh]. rewrite tshape_record, IHk, IHv by assumption. reflexivity.
     - cbn [union_under_seq] in Hs. apply orb_false_iff in Hs. destruct Hs as [Ha Hb]. cbn [dom] in Hd.
-      cbn [ts_ty_of tsh]. rewrite arr_of_plain by (apply not_union; assumption). cbn [tshape]. rewrite IH by assumption. reflexivity.
+      cbn [ts_ty_of tsh]. rewrite arr_of_plain by (apply not_union; assumption || exact Hm). cbn [tshape]. rewrite IH by assumption. reflexivity.
     - destruct l as [|a l']; [reflexivity|].
       cbn [ts_ty_of tsh tshape]. f_equal. rewrite map_map. apply map_ext_in. intros x Hx.
       rewrite Forall_forall in IH. apply IH; [exact Hx| |].
@@ -255,7 +271,7 @@ Section WithMap.
         assert (tshape (TyUnion [ts_ty_of m u; null_ty]) = norm_union [tshape (ts_ty_of m u); ShNull]) as -> by reflexivity.
         rewrite IH by assumption. rewrite norm_union_pair by (apply is_null_tsh; assumption). reflexivity.
     - cbn [union_under_seq dom] in *. cbn [ts_ty_of tsh]. apply IH; assumption.
-    - reflexivity.
+    - cbn [ts_ty_of tsh]. rewrite custom_ty_prim by exact Hm. reflexivity.
   Qed.
 
   (* ---- agreement of the intended shapes ---- *)
